@@ -112,8 +112,55 @@ func isInt64(v float64) bool {
 	return v == math.Trunc(v) && v >= -9223372036854775808.0 && v < 9223372036854775808.0
 }
 
+// Answers are written as JSON, which has no way of carrying a number that is
+// not finite. MessagePack can deliver one, stored it makes every search that
+// selects it fail.
+func checkFiniteNumbers(property string, v any) error {
+	switch v := v.(type) {
+	case float64:
+		if math.IsNaN(v) || math.IsInf(v, 0) {
+			return fmt.Errorf("expected a finite number for property %s, got %v", property, v)
+		}
+	case float32:
+		return checkFiniteNumbers(property, float64(v))
+	case []float32:
+		for _, f := range v {
+			if err := checkFiniteNumbers(property, float64(f)); err != nil {
+				return err
+			}
+		}
+	case []float64:
+		for _, f := range v {
+			if err := checkFiniteNumbers(property, f); err != nil {
+				return err
+			}
+		}
+	case []any:
+		for _, e := range v {
+			if err := checkFiniteNumbers(property, e); err != nil {
+				return err
+			}
+		}
+	case PointAsMap:
+		return checkFiniteNumbers(property, map[string]any(v))
+	case map[string]any:
+		for k, e := range v {
+			if property != "" {
+				k = property + "." + k
+			}
+			if err := checkFiniteNumbers(k, e); err != nil {
+				return err
+			}
+		}
+	}
+	return nil
+}
+
 // Check if a given map is compatible with the index schema
 func (s IndexSchema) CheckCompatibleMap(pointMap PointAsMap) error {
+	if err := checkFiniteNumbers("", pointMap); err != nil {
+		return err
+	}
 	// We will go through each index field, check if the map has them, is of
 	// right type and any extra checks needed
 	// ---------------------------
